@@ -155,5 +155,13 @@ class RevolvedRing(ExtrudedRing):
     def operations(self) -> List[Operation]:
         return self.revolves
 
+    @property
+    def core(self) -> List[Operation]:
+        return []
+
+    @property
+    def grid(self) -> List[List[Operation]]:
+        return [self.revolves]
+
     def chop_axial(self, **kwargs):
         self.operations[0].chop(self.axial_axis, **kwargs)
